@@ -79,3 +79,28 @@ def main(names, jobs):
                 print("      " + out.replace("\n", "\n      "))
     print(f"selftest: {len(ms) - fails}/{len(ms)} mutants detected")
     return 1 if fails else 0
+
+
+def for_property(prop):
+    """Run the mutants whose expectation names `prop` (used by the thorough tier); returns a summary for the evidence file."""
+    idx = json.load(open(os.path.join(HERE, "selftest", "index.json")))
+    vpath = os.path.join(HERE, "selftest", "verified.json")
+    verified = json.load(open(vpath)) if os.path.exists(vpath) else {}
+    ms = [dict(m, expect={prop: m["expect"][prop]}) for m in idx if prop in m["expect"]]
+    out = {"mutants": len(ms), "detected": 0, "missed": [], "skipped": [], "suite_surviving": 0}
+    for m in ms:
+        try:
+            _, ok, detail, _ = run_one(m, 0)
+        except Exception as e:
+            out["skipped"].append(f"{m['name']}: {e}")
+            continue
+        if "does not apply" in detail:
+            out["skipped"].append(m["name"])
+            continue
+        if ok:
+            out["detected"] += 1
+            if verified.get(m["name"], {}).get("tests_pass"):
+                out["suite_surviving"] += 1
+        else:
+            out["missed"].append(m["name"])
+    return out
